@@ -553,6 +553,64 @@ def r3_dispatch_assert_agreement(ctx):
             ok = all(key in chars for _k, chars in asserted[:1])
             ctx.ob("C16.R3", f"{RD}::{tbl}[{key!r}] -> {fn.name} asserts {sorted(asserted[0][1])}", RD, fn.lineno, ok,
                    "" if ok else f"{fn.name} is registered under {key!r} but asserts {sorted(asserted[0][1])}: reading {key!r} raises AssertionError")
+    # direct calls (not through a table) of a reader that asserts its start character: the caller
+    # must have established that character -- a comparison of the peeked character with a member of
+    # the asserted set on every path to the call (statement-level test or conditional expression)
+    readers = _reader_functions(ctx)
+    keys_of: dict = {}
+    for tbl in ("_read_dispatch", "_read_macro_dispatch"):
+        d = P.module_assign(tree, tbl)
+        for k, v in zip(d.keys, d.values):
+            if isinstance(v, ast.Name) and isinstance(k, ast.Constant):
+                keys_of.setdefault(v.id, set()).add(k.value)
+    for callee, cfn in sorted(readers.items()):
+        asserted = _asserted_chars(cfn)
+        if not asserted:
+            continue
+        chars = asserted[0][1]
+        for caller, fn in sorted(readers.items()):
+            g = None
+            for c in P.calls(fn):
+                if P.un(c.func) != callee:
+                    continue
+
+                def establishes(t):
+                    for cmp_ in ast.walk(t):
+                        if isinstance(cmp_, ast.Compare) and len(cmp_.ops) == 1 and isinstance(cmp_.comparators[0], ast.Constant):
+                            if isinstance(cmp_.ops[0], ast.Eq) and cmp_.comparators[0].value in chars:
+                                return True
+                    return False
+                ok = False
+                # conditional expression
+                for a in P.ancestors(c):
+                    if a is fn:
+                        break
+                    if isinstance(a, ast.IfExp) and P.contains(a.body, c) and establishes(a.test):
+                        ok = True
+                if not ok:
+                    g = g or CFG(fn)
+                    nodes = [nd for nd in g.nodes if nd.ast is not None and nd.kind in ("stmt", "test") and P.contains(nd.ast, c)]
+
+                    def guard(a, b, lab):
+                        if a.kind != "test" or not isinstance(a.ast, ast.Compare) or len(a.ast.ops) != 1 or not isinstance(a.ast.comparators[0], ast.Constant):
+                            return False
+                        v = a.ast.comparators[0].value
+                        if isinstance(a.ast.ops[0], ast.Eq):
+                            return lab is True and v in chars
+                        if isinstance(a.ast.ops[0], ast.NotEq):
+                            return lab is False and v in chars
+                        return False
+                    ok = bool(nodes) and all(g.edge_dominated(nd, guard) for nd in nodes)
+                    if not ok and nodes and keys_of.get(caller) and keys_of[caller] <= chars:
+                        # the caller itself is only entered, through a dispatch table, on such a character:
+                        # still true at the call if nothing was consumed on the way
+                        al = _reader_aliases(fn)
+                        consumed = [nd for nd in g.nodes if any(_reader_op(x, al) in CONSUME or (P.un(x.func) in readers and P.un(x.func) != callee) for x in _node_calls(nd))]
+                        after = g.reach([m for nd in consumed for m, lab in nd.succ if lab != "exc"])
+                        ok = not any(nd.id in after or nd in consumed for nd in nodes)
+                ctx.ob("C16.R3", f"{RD}::{caller} calls {callee} (asserts {sorted(chars)}) only after establishing that character", RD, c.lineno, ok,
+                       "" if ok else f"{caller} calls {callee} without having checked the next character: any other character (or end of input) raises AssertionError instead of a syntax / EOF error",
+                       witness="#:a [1]  and  #:a at end of input")
 
 
 # ---------------------------------------------------------------------------------------------
@@ -1266,6 +1324,11 @@ SELFTEST = [
      "old": "    \"@\": _read_deref,\n", "new": "    \"@\": _read_deref,\n    \"$\": _read_deref,\n"},
     {"name": "prompt swallows EOF as error", "file": PROMPT, "expect": "C16.R6",
      "old": "            except reader.UnexpectedEOFError:\n                event.current_buffer.insert_text(\"\\n\")\n            except reader.SyntaxError as e:", "new": "            except reader.SyntaxError as e:"},
+    {"name": "namespaced map prefix trusts the next character (the repaired defect)", "file": RD, "expect": "C16.R3",
+     "old": "    if char != \"{\":\n        raise ctx.syntax_error(\n            f\"Expected '{{' after namespaced map prefix '#:{map_ns}'; got '{char}'\"\n        )\n", "new": ""},
+    {"name": "twin: namespaced map prefix guard written positively", "file": RD, "expect": None,
+     "old": "    if char != \"{\":\n        raise ctx.syntax_error(\n            f\"Expected '{{' after namespaced map prefix '#:{map_ns}'; got '{char}'\"\n        )\n\n    return _read_map(ctx, namespace=map_ns)\n",
+     "new": "    if char == \"{\":\n        return _read_map(ctx, namespace=map_ns)\n    raise ctx.syntax_error(\n        f\"Expected '{{' after namespaced map prefix '#:{map_ns}'; got '{char}'\"\n    )\n"},
     {"name": "line comment forgets end of input", "file": RD, "expect": "C16.R5",
      "old": "        if char == \"\":\n            return ctx.eof\n        reader.advance()\n", "new": "        reader.advance()\n"},
     {"name": "whitespace skipped without advancing", "file": RD, "expect": "C16.R5", "first": True,
